@@ -79,7 +79,9 @@ func toValue(r interface{}, out reflect.Type, isVariadic bool) (reflect.Value, e
 // cast 将reflect.Value类型强制转换为执行type类型的reflect.Value
 func cast(v reflect.Value, typ reflect.Type) reflect.Value {
 	originV := (*hack.Value)(unsafe.Pointer(&v))
-	newV := reflect.NewAt(typ, originV.Ptr).Elem()
+	// 只需要目标类型的类型指针; 不能用 NewAt(typ, originV.Ptr).Elem():
+	// 仅含一个指针字段的结构体直接存放在接口字中, 字段为 nil 时 Ptr 为 nil
+	newV := reflect.Zero(typ)
 	newVHack := (*hack.Value)(unsafe.Pointer(&newV))
 	v = *(*reflect.Value)(unsafe.Pointer(&hack.Value{
 		Typ:  newVHack.Typ,
